@@ -184,3 +184,22 @@ def Pdu.norm : Pdu → Pdu
   | .rcp p => .rcp p
 
 end Dmr.Hytera
+
+namespace Dmr.Hytera
+open Dmr Dmr.Gen.Hytera
+
+/-! ### HSTRP -/
+
+/-- every option has a known command and at most 255 octets of data -/
+def optsWF (os : Opts) : Prop := ∀ o ∈ os, o.1 ∈ hstrpOptionValues ∧ o.2.length < 256
+instance (os : Opts) : Decidable (optsWF os) := by unfold optsWF; infer_instance
+
+/-- what `HSTRP.from_bytes` needs to find options and payload again: options are announced by the
+option bit on a non-heartbeat packet (`has_options`); when that property holds although there are no
+options, nothing may follow the header (the parser would read a payload as an option chain) -/
+def Consistent (t : PktType) (os : Opts) (pl : Option Pdu) : Prop :=
+  (os ≠ [] → t.hasOptions = true) ∧ (os = [] → t.hasOptions = true → pl = none) ∧ optsWF os
+instance (t : PktType) (os : Opts) (pl : Option Pdu) : Decidable (Consistent t os pl) := by
+  unfold Consistent; infer_instance
+
+end Dmr.Hytera
